@@ -76,10 +76,10 @@ var properties = map[string]*Property{
 		ID:    "C06",
 		Title: "Function calls and closures behave as in Go regardless of frame recycling",
 		Units: []Unit{
-			{Kind: "funcs", Pkg: "fast", Funcs: []string{"(*Env).freeEnv", "(*Env).MarkUsedByClosure", "newEnv", "NewEnv", "(*Env).FreeEnv", "(*Env).freeEnv4Func", "(*Var).Address"}},
+			{Kind: "funcs", Pkg: "fast", Funcs: []string{"(*Env).freeEnv", "(*Env).MarkUsedByClosure", "newEnv", "NewEnv", "(*Env).FreeEnv", "(*Env).freeEnv4Func", "(*Var).Address", "(*Comp).call0ret0"}},
 		},
 		NotCovered: []string{
-			"first sentence of the property (results of calls equal compiled Go): call*.go / func*ret*.go specialisations are not under contract",
+			"first sentence of the property (results of calls equal compiled Go): of the call*.go / func*ret*.go specialisations only call0ret0 (a call f() of a function variable) is under contract",
 			"that every function-creating closure marks its frame / frees it exactly once (typestate over func0ret0..func2ret0)",
 		},
 	},
